@@ -84,7 +84,7 @@ BodyV(s) ==
      (IF s.body \in {"good", "twomsgs", "noterm", "nomsg"} THEN Success
       ELSE IF s.body = "empty" THEN Loose    \* an empty body is the zero message
       ELSE AnyErr)
-  ELSE IF s.body = "garbage" THEN AnyErr
+  ELSE IF s.body \in {"garbage", "flood"} THEN AnyErr
   ELSE IF s.body \in {"noterm", "empty"} /\ s.proto # "grpc" THEN AnyErr
   ELSE IF s.body \in {"noterm", "empty"} /\ UnaryShaped(s) /\ s.body = "empty" /\ TermVerdict(s) = Pass THEN AnyErr
   ELSE LET t == TermVerdict(s) IN
